@@ -142,6 +142,19 @@ func init() {
 			g.pending = nil
 			return nil
 		},
+		// vConcurrently(f1, f2) (conflict bool, writes1 int): symbolically f1 then f2 are executed
+		// with their cell-level footprints recorded; natively they run in two goroutines.
+		"vConcurrently": func(fr *frame, args []Value) Value {
+			ex := fr.ex
+			f1 := newFootprint()
+			ex.fp = f1
+			ex.callValue(fr, args[0], nil)
+			f2 := newFootprint()
+			ex.fp = f2
+			ex.callValue(fr, args[1], nil)
+			ex.fp = nil
+			return Tuple{ex.ctx.Bool(f1.conflicts(f2)), ex.ctx.ConstS(64, int64(len(f1.w)))}
+		},
 		"vWindow": func(fr *frame, args []Value) Value { return nil },
 		"vQuiesce": func(fr *frame, args []Value) Value {
 			g := fr.gor()
